@@ -672,6 +672,16 @@ func genHistory(n int, rnd *rand.Rand, child bool) *History {
 		rnd.Read(seed)
 		h.Ctrls = append(h.Ctrls, CtrlSpec{ID: fmt.Sprintf(ctrlNames[i], rnd.Intn(1e9)), Seed: hex.EncodeToString(seed)})
 	}
+	// every name a controller may present: in a sixth of the histories one controller has the empty identifier, a dot
+	// name or a name of 120 bytes (their entity files are ".entity", hex of "." ..., a 240+ character file name)
+	switch n % 18 {
+	case 1:
+		h.Ctrls[n%4].ID = ""
+	case 7:
+		h.Ctrls[n%4].ID = "."
+	case 13:
+		h.Ctrls[n%4].ID = strings.Repeat("n", 120)
+	}
 	nruns := 4 + rnd.Intn(4)
 	rec := randRecipe(rnd)
 	var paired []int
